@@ -64,6 +64,12 @@ CHECKS = {
     "C11": dict(level="exploration", ref="4 (C11)", technique="runtime monitor: generated configuration texts through the real loader/validator, reference acceptance predicate plus crash monitor on instantiation (child process per batch)",
                 text="Accepted configurations are checked against a reference structural predicate and then instantiated, evaluated and cycled by the daemon's own initialisation code in a "
                      "child process whose death is attributed to the logged case; documented-form configurations must be accepted."),
+    "C03": dict(level="fault_enumeration", ref="5 (C03)", technique="runtime monitor: final-state oracle on the device after enumerated stop points x injected restore faults (in-process controller.Run; process-level daemon with real signals)",
+                text="Regulation is stopped at enumerated points (n-th device I/O operation, delays falling into each wait, fatal stall error) while the virtual driver refuses / silently "
+                     "ignores / pins the restore writes; the device state after shutdown must be 'original non-manual mode' or 'PWM 255'. The process-level layer sends 1..3 real "
+                     "SIGTERM/SIGINT to the real daemon binary in each phase and checks exit status, absence of a Go panic trace and the same final-state predicate.",
+                note="Trusted base: harness, virtual driver (refuse = error without effect, ignore = success without effect, stick = other value stored), gosensors stand-in; the "
+                     "controller's fixed waits are divided by a time scale (tick rates unchanged). SIGKILL / power loss are outside the statement."),
 }
 
 
